@@ -170,12 +170,15 @@ Definition c02_tree (name : bytes) (id : Z) (tag : bytes) (x : Z) : list value :
    VUser (c02_t [109;97;105;110;46;80;83]%N) (mkI false false false false false true) false
          (VStruct (c02_t [109;97;105;110;46;80;83]%N) []) [APanic (VStr c02_ts name)];
    VUser (c02_t [42;109;97;105;110;46;78]%N) (mkI false false false false false true) true
-         (VPtr (c02_t [42;109;97;105;110;46;78]%N) 0 None) []].
-Definition c02_fmt2 : bytes := [37;43;118;124;37;118;124;37;118;124;37;118;124;37;118;124;37;115;124;37;118;124;37;118;124;37;115]%N.
+         (VPtr (c02_t [42;109;97;105;110;46;78]%N) 0 None) [];
+   (* a nil *T whose Format method is called (and panics on the nil receiver) *)
+   VUser (c02_t [42;109;97;105;110;46;70]%N) (mkI false false false true false false) true
+         (VPtr (c02_t [42;109;97;105;110;46;70]%N) 0 None) [AWrite name]].
+Definition c02_fmt2 : bytes := [37;43;118;124;37;118;124;37;118;124;37;118;124;37;118;124;37;115;124;37;118;124;37;118;124;37;115;124;37;118]%N.
 
 Lemma c02_trees_related : Forall2 arel (c02_tree [97;98]%N 42 [120;10;121]%N 5) (c02_tree [99;100]%N 4711 [122;10;122]%N 77).
 Proof.
-  unfold c02_tree. constructor; [apply ar_v|constructor; [apply ar_v|constructor; [apply ar_v|constructor; [apply ar_v|constructor; [apply ar_unsafe|constructor; [apply ar_safe|constructor; [apply ar_v|constructor; [apply ar_v|constructor; [apply ar_v|constructor]]]]]]]]].
+  unfold c02_tree. constructor; [apply ar_v|constructor; [apply ar_v|constructor; [apply ar_v|constructor; [apply ar_v|constructor; [apply ar_unsafe|constructor; [apply ar_safe|constructor; [apply ar_v|constructor; [apply ar_v|constructor; [apply ar_v|constructor; [apply ar_v|constructor]]]]]]]]]].
   - apply vr_struct; [reflexivity | reflexivity|].
     constructor; [split; [reflexivity|]; apply vr_leaf; c02_lrel; split; [reflexivity | c02_srel]|].
     constructor; [split; [reflexivity|]; apply vr_leaf; c02_lrel; split; [reflexivity|]; unfold irel, Fmt.two64; lia|].
@@ -204,6 +207,7 @@ Proof.
   - apply vr_puser; try reflexivity; [|apply vr_struct; [reflexivity | reflexivity | constructor]].
     apply ar_v, vr_leaf. c02_lrel. split; [reflexivity | c02_srel].
   - apply vr_nuser; try reflexivity. apply vr_ptr_nil; reflexivity.
+  - apply vr_nfuser; try reflexivity; [left; repeat split; reflexivity | apply vr_ptr_nil; reflexivity].
 Qed.
 
 Example C02_tree_nonvacuous :
